@@ -275,3 +275,17 @@ Example verbatim_statement_program :
   program_of_script ("`self.k = 3`" ++ lf ++ "Y = X + 1") = None /\
   program_of_script ("```" ++ lf ++ "self._Y[t] = 1" ++ lf ++ "```" ++ lf ++ "Z = X") = None.
 Proof. vm_compute. repeat split; reflexivity. Qed.
+
+(* operations CPython performs on Python numbers (both operands free of series): a division by a literal zero raises
+   ZeroDivisionError, a power of literals may raise OverflowError / be complex / be a huge int — outside the subset;
+   a non-zero literal divisor, and any operation with a series operand (NumPy performs it), are inside *)
+Example python_number_operations :
+  stmt_of_equation (row_of ["Y"; "X"]) "Y = X * (1/0)" = None /\
+  stmt_of_equation (row_of ["Y"; "X"]) "Y = X + (-8) ** 0.5" = None /\
+  stmt_of_equation (row_of ["Y"; "X"]) "Y = X * 10.0 ** 400" = None /\
+  stmt_of_equation (row_of ["Y"; "X"]) "Y = max(1, X) / 0" = None /\
+  stmt_of_equation (row_of ["Y"; "X"]) "Y = X / 0 + 1 / 4 + 2 / -3 + X ** 2 + 2 ** X"
+  = Some ("Y", SAssign 0 0%Z (EBin OAdd (EBin OAdd (EBin OAdd (EBin OAdd (EBin ODiv (ERead 1 0%Z) (ENum "0")) (EBin ODiv (ENum "1") (ENum "4")))
+                                                                  (EBin ODiv (ENum "2") (ENum "-3"))) (EBin OPow (ERead 1 0%Z) (ENum "2")))
+                                        (EBin OPow (ENum "2") (ERead 1 0%Z)))).
+Proof. vm_compute. repeat split; reflexivity. Qed.
